@@ -433,6 +433,50 @@ for (dt_tb, dt_out) in ((10e-9, 20e-9), (10e-9, 12.5e-9), (20e-9, 25e-9), (10e-9
                       "stretched / compressed by the ratio of the steps", {"toneburst_step": dt_tb, "window_step": dt_out,
                                                                             "max_envelope_error": float(np.max(np.abs(np.abs(o_[0]) - want_env)))})
 
+# HISTORY: the arrays returned by make_toneburst2 are the caller's own (scaled to a pulser voltage, gated, ...); the next
+# call with the same arguments must return the pristine toneburst
+for (cyc, f, dt, nb, na) in ((5, 5e6, 1 / 50e6, 2, 2), (3, 2e6, 1e-7, 0, 1)):
+    tt1, tb1, t01 = model.make_toneburst2(cyc, f, dt, num_before=nb, num_after=na)
+    pristine = np.array(tb1, copy=True)
+    try:
+        tb1 *= 37.0
+        tb1[len(tb1) // 2:] = 0.0
+    except ValueError:
+        pass
+    tt2, tb2, t02 = model.make_toneburst2(cyc, f, dt, num_before=nb, num_after=na)
+    evaluations += 1
+    if not np.array_equal(np.asarray(tb2), pristine) or t02 != t01 or tb2[t02] != 1.0:
+        chk.violation("toneburst2:history", "make_toneburst2 returns a different toneburst after the caller edited in place the array "
+                      "returned by an earlier call with the same arguments",
+                      {"num_cycles": cyc, "centre_freq": f, "dt": dt, "num_before": nb, "num_after": na,
+                       "peak_value_second_call": float(np.asarray(tb2)[t02])})
+
+# a LARGE request (thousands of timetraces, two scatterers: more than 2^21 response samples in one call): every echo of
+# every timetrace at its own delay
+cyc, f, dt = 5, 1e6, 1 / 80e6
+tt, tb, t0 = model.make_toneburst2(cyc, f, dt, num_before=1, num_after=1)
+n = len(tt)
+numtt_, numscat_ = (2700 if Q else 6000), 2
+length = n + 700
+freq, tb_f = np.fft.rfftfreq(n, dt), np.fft.rfft(tb)
+ks_ = rng.integers(t0, t0 + length - n + 1, size=(numscat_, numtt_))
+H_ = rng.standard_normal((numscat_, numtt_)) + 1j * rng.standard_normal((numscat_, numtt_))
+out_ = np.asarray(model.transfer_func_to_timetraces(H_[..., np.newaxis], ks_ * dt, Time(0.0, dt, length), tt, freq, tb_f, t0))
+analytic = arim.signal.rfft_to_hilbert(tb_f, n)
+want_ = np.zeros((numtt_, length), complex)
+for s_ in range(numscat_):
+    for j_ in range(numtt_):
+        k_ = int(ks_[s_, j_])
+        want_[j_, k_ - t0: k_ - t0 + n] += H_[s_, j_] * analytic
+evaluations += numtt_
+chk.count(large_request=f"{numscat_} scatterers x {numtt_} timetraces x {n} samples")
+if out_.shape != want_.shape or not np.allclose(out_, want_, rtol=0, atol=1e-9 * float(np.max(np.abs(H_)))):
+    badrows = np.nonzero(np.max(np.abs(out_ - want_), axis=1) > 1e-9 * float(np.max(np.abs(H_))))[0] if out_.shape == want_.shape else [0]
+    chk.violation("tf:large-request", f"a request of {numscat_} x {numtt_} timetraces: {len(badrows)} timetraces do not hold their echoes at their "
+                  "own delays", {"num_cycles": cyc, "centre_freq": f, "dt": dt, "numscatterers": numscat_, "numtimetraces": numtt_,
+                                 "toneburst_len": n, "first_bad_timetrace": int(badrows[0]),
+                                 "how": "sample-aligned random delays and complex coefficients; seed and tier replay it"})
+
 # model side: delay split on the exact rational value of the float inputs (NumQ)
 lits, keep = [], []
 for i, (rel, dt, q_obs, info) in enumerate(ds_cases):
